@@ -30,6 +30,7 @@ def model_check(ctx):
     ctx.mc_expect("MC_Writers", "DEV_Writers_1.cfg", "PropOwnInputs")
     ctx.mc_expect("MC_Writers", "DEV_Writers_2.cfg", "PropOwnInputs")
     ctx.mc_expect("MC_Writers", "DEV_Writers_3.cfg", "PropOwnInputs")
+    ctx.mc_expect("MC_Writers", "DEV_Writers_4.cfg", "PropOwnInputs")
 
 
 def cases(ctx):
@@ -49,7 +50,9 @@ def cases(ctx):
     for _ in range(1500 if ctx.thorough else 250):
         ops, nw = [], 0
         for _ in range(12):
-            if nw == 0 or (nw < 5 and rng.random() < 0.3):
+            if nw > 0 and rng.random() < 0.12:
+                ops.append({"op": "edit", "w": 0, "path": "", "mode": "", "kind": "", "fmt": "", "d": 0})
+            elif nw == 0 or (nw < 5 and rng.random() < 0.3):
                 nw += 1
                 ops.append({"op": "new", "w": nw, "path": "", "mode": "", "kind": "", "fmt": rng.choice(["xml", "pb"]),
                             "d": rng.randint(1, 12)})
@@ -86,14 +89,14 @@ def _world():
     return sc, pps
 
 
-def _project(path, d_expected):
+def _project(path, d_expected, nl_expected=1):
     """Abstract content of the file at `path`."""
     from commonroad.common.file_reader import CommonRoadFileReader
     from commonroad.common.util import FileFormat
     with open(path, "rb") as f:
         raw = f.read()
     out = {"fmt": "xml" if raw.lstrip().startswith(b"<?xml") else "pb", "copies": 0, "pp": 0, "digits": [], "nprobes": 0,
-           "readback": 0}
+           "readback": 0, "nl": 0}
     if out["fmt"] == "xml":
         from lxml import etree
         try:
@@ -102,6 +105,7 @@ def _project(path, d_expected):
             out["fmt"] = "garbled"
             return out, hashlib.sha1(raw).hexdigest()
         out["copies"] = sum(1 for e in root.findall("lanelet") if e.get("id") == "1")
+        out["nl"] = len({e.get("id") for e in root.findall("lanelet")})
         out["pp"] = len(root.findall("planningProblem"))
         # decimal places of every written probe number (all numbers whose fraction starts with the probe digits)
         # (shape parameters are written with str(), i.e. always in full: not a function of any writer's precision)
@@ -122,6 +126,7 @@ def _project(path, d_expected):
             out["fmt"] = "garbled"
             return out, hashlib.sha1(raw).hexdigest()
         out["copies"] = sum(1 for la in msg.lanelets if la.lanelet_id == 1)
+        out["nl"] = len({la.lanelet_id for la in msg.lanelets})
         out["pp"] = len(msg.planning_problems)
         for f in [fd.name for fd, _ in msg.information.date.ListFields()]:
             msg.information.date.ClearField(f)                      # keep the (required) field, drop its content
@@ -132,7 +137,8 @@ def _project(path, d_expected):
         las = sc2.lanelet_network.lanelets
         tol = 10.0 ** (-d_expected) if out["fmt"] == "xml" else 1e-12
         o6 = sc2.obstacle_by_id(6)
-        ok = len(las) == 1 and len(sc2.obstacles) == 2 and abs(float(las[0].right_vertices[0][0]) - PROBE) < tol \
+        la1 = sc2.lanelet_network.find_lanelet_by_id(1)
+        ok = len(las) == nl_expected and len(sc2.obstacles) == 2 and abs(float(la1.right_vertices[0][0]) - PROBE) < tol \
             and len(pps2.planning_problem_dict) == out["pp"] and o6 is not None \
             and abs(o6.initial_state.velocity - (12.0 + PROBE)) < tol and abs(o6.initial_state.orientation) < tol \
             and abs(o6.prediction.trajectory.state_list[1].orientation + PROBE) < tol \
@@ -153,8 +159,15 @@ def execute(case):
     os.makedirs(d)
     sc, pps = _world()
     writers, cids, ev = {}, {}, []
+    nl = 1
     try:
         for a in case["ops"]:
+            if a["op"] == "edit":                                   # the scenario all writers reference is edited
+                from crv import gamma as G
+                nl += 1
+                sc.add_objects(G.lanelet(100 + nl, x0=PROBE + 3.0 * nl, y0=0.0, length=2.0))
+                ev.append({"op": "edit", "nl": len(sc.lanelet_network.lanelets), "sig": "edit"})
+                continue
             if a["op"] == "new":
                 exc = "None"
                 try:
@@ -180,10 +193,10 @@ def execute(case):
                     wr.write_scenario_to_file(path, mode)
             except Exception as ex:
                 exc = "exc:" + type(ex).__name__
-            proj = {"fmt": "none", "copies": 0, "pp": 0, "digits": [], "nprobes": 0, "readback": 0}
+            proj = {"fmt": "none", "copies": 0, "pp": 0, "digits": [], "nprobes": 0, "readback": 0, "nl": 0}
             cid = 0
             if os.path.exists(path):
-                proj, h = _project(path, dd)
+                proj, h = _project(path, dd, nl)
                 cid = cids.setdefault(h, len(cids) + 1)
             n_prev = sum(1 for e in ev if e["op"] == "write" and e["w"] == a["w"])
             ev.append(dict(proj, op="write", w=a["w"], path=a["path"], mode=a["mode"], kind=a["kind"], cid=cid, exc=exc,
